@@ -12,7 +12,7 @@ use std::collections::HashSet;
 use crate::core::cell_info::get_num_children;
 use crate::core::serialization::{
     cell_to_children, cell_to_parent, get_resolution, get_stride, is_first_child,
-    FIRST_HILBERT_RESOLUTION,
+    FIRST_HILBERT_RESOLUTION, MAX_RESOLUTION,
 };
 
 /// Expands a set of A5 cells to a target resolution by generating all descendant cells.
@@ -30,6 +30,13 @@ use crate::core::serialization::{
 ///
 /// Returns an error if any cell is at a resolution higher than the target resolution
 pub fn uncompact(cells: &[u64], target_resolution: i32) -> Result<Vec<u64>, String> {
+    if !(-1..MAX_RESOLUTION).contains(&target_resolution) {
+        return Err(format!(
+            "Target resolution ({}) is out of range",
+            target_resolution
+        ));
+    }
+
     // First calculate how much space is needed
     let mut n = 0;
     let mut resolutions = Vec::with_capacity(cells.len());
